@@ -171,7 +171,7 @@ impl DocumentBuilder {
             self.current_node_id.append(namespace_node, &mut xot.arena);
         }
         // add attribute nodes
-        let mut attribute_spans = Vec::new();
+        let mut attribute_spans: AttributeSpans = Vec::new();
         for attribute_builder in element_builder.attributes {
             let name_id = self.name_id_builder.attribute_name_id(
                 &attribute_builder.prefix,
@@ -179,6 +179,19 @@ impl DocumentBuilder {
                 attribute_builder.prefix_span,
                 xot,
             )?;
+            // two prefixes bound to one namespace can spell the same expanded
+            // name differently: https://www.w3.org/TR/xml-names/#uniqAttrs
+            if attribute_spans.iter().any(|(n, _, _)| *n == name_id) {
+                let attr_name = if attribute_builder.prefix.is_empty() {
+                    attribute_builder.name
+                } else {
+                    format!("{}:{}", attribute_builder.prefix, attribute_builder.name)
+                };
+                return Err(ParseError::DuplicateAttribute(
+                    attr_name,
+                    attribute_builder.name_span,
+                ));
+            }
             // if we see xml:id, check that they aren't a duplicate
             // and keep track of all node ids that have an xml:id
             if name_id == self.xml_id_id {
